@@ -510,7 +510,7 @@ func checkDeliverFn(c *Check, p *Program, rule string, fn *ssa.Function, chF, do
 						switch {
 						case st.Dir == types.SendOnly && chanField(st.Chan) == chF && isMsg(st.Send):
 							hasSend = true
-						case st.Dir == types.RecvOnly && chanField(st.Chan) == doneF:
+						case st.Dir == types.RecvOnly && doneF != nil && chanField(st.Chan) == doneF:
 						default:
 							return false, "the parked delivery can give up (select case at " + p.InstrPos(s) + " other than the send or the tunnel's done channel): an accepted telegram is dropped while the tunnel is open"
 						}
